@@ -1,7 +1,7 @@
 //! Behaviour beyond the listed properties (spec/Extras.tla): approx, constants, u8 conversions, with_hms*,
 //! frequencies, TimeSeries::next_back / len, next/previous weekday at midnight/noon.
 use crate::lm::Landmarks;
-use crate::p_duration::{DurGen, DM, NPC};
+use crate::p_duration::{safe, DurGen, DM, NPC};
 use crate::p_epoch::{ns_dur, safe_epoch, EM, EXACT, NS_DAY, NS_S};
 use crate::p_misc::SM;
 use crate::p_text::elapsed_4digit;
@@ -191,6 +191,52 @@ pub fn extras(rec: &mut Rec, lm: &Landmarks, rng: &mut Rng, thorough: bool) {
                     m.ts = back;
                 }
             }
+        }
+    }
+    // Polynomial corrections and precise_timescale_conversion (constant-offset polynomials: the rate and
+    // acceleration terms are exact zeros, so the correction is the constant taken through f64 seconds and back)
+    {
+        use hifitime::Polynomial;
+        let mut m = EM::new(rec);
+        for i in 0..(if thorough { 8_000 } else { 800 }) {
+            let c_ns: i128 = match i % 5 {
+                0 => rng.range_i64(-1_000, 1_000) as i128,
+                1 => rng.range_i64(-1_000_000_000, 1_000_000_000) as i128,
+                2 => 0,
+                3 => rng.range_i64(-50, 50) as i128 * 1_000,
+                _ => rng.log_i128(50),
+            };
+            let constant = ns_dur(c_ns);
+            let poly = if i % 2 == 0 { Polynomial::from_constant_offset(constant) } else { Polynomial::from_constant_offset_nanoseconds(c_ns as f64) };
+            let ts = EXACT[i % 7];
+            m.eload_dur(ts, ns_dur(elapsed_4digit(rng, ts)));
+            let a = m.e;
+            let reference = safe_epoch(|| a - ns_dur(rng.below(86_400 * NS_S) as i128));
+            let dt = safe(|| a - reference);
+            let secs = catch(|| poly.constant.to_seconds());
+            let corr = catch(|| poly.correction_duration(dt));
+            let target = EXACT[(i / 7 + 3) % 7];
+            let forward = i % 3 != 0;
+            let r = catch(|| a.precise_timescale_conversion(forward, reference, poly, target).map_err(|_| ()));
+            let res = match &r {
+                Ok(Ok(e)) => jepoch(*e),
+                Ok(Err(_)) => "{\"err\":1}".to_string(),
+                Err(p) => jpanic(p),
+            };
+            m.rec.ev(
+                "x_precise",
+                format!(
+                    "\"constant\":{},\"stored\":{},\"secs\":{},\"corr\":{},\"to\":{},\"forward\":{},\"res\":{}",
+                    jdur(constant),
+                    jdur(poly.constant),
+                    match secs { Ok(x) => jf64(x), Err(ref p) => jpanic(p) },
+                    jres_dur(&corr),
+                    ts_idx(target),
+                    jbool(forward),
+                    res
+                ),
+                true,
+            );
         }
     }
     // month and weekday names
